@@ -534,7 +534,9 @@ func ruleRoutingWriters(c *Ctx, rule string) {
 			return false
 		}
 		// and the process that is stopped is the same one
-		for _, ci := range callsIn(fn, func(ci ssa.CallInstruction) bool { return strings.HasSuffix(calleeName(ci), "internal/core.BeaconProcess).Stop") }) {
+		for _, ci := range callsIn(fn, func(ci ssa.CallInstruction) bool {
+			return strings.HasSuffix(calleeName(ci), "internal/core.BeaconProcess).Stop")
+		}) {
 			if ci.Common().Args[0] != bpv[0] {
 				return false
 			}
@@ -695,21 +697,63 @@ func ruleHTTPLookup(c *Ctx, rule string) {
 					continue
 				}
 				pred := ph.Block().Preds[i]
-				// the predecessor must only be entered where hexv == ""
-				entered := reachableAvoiding(s.fn, pred, func(e edge) bool {
+				// the default alias is selected only where the requested hash is empty: hexv == "", or len(h) == 0 for the
+				// byte slice h the key is the encoding of
+				est := func(e edge) bool {
 					cond, truth, okc := edgeCond(e)
 					if !okc {
 						return false
 					}
-					b, okb := cond.(*ssa.BinOp)
-					if !okb || (b.Op != token.EQL && b.Op != token.NEQ) {
-						return false
+					if b, okb := cond.(*ssa.BinOp); okb && b.Op == token.EQL {
+						if (b.X == hexv && isConstString(b.Y, "")) || (b.Y == hexv && isConstString(b.X, "")) {
+							return truth
+						}
 					}
-					if !((b.X == hexv && isConstString(b.Y, "")) || (b.Y == hexv && isConstString(b.X, ""))) {
-						return false
+					isLenOfHash := func(v ssa.Value) bool {
+						call, okc := stripConv(v).(*ssa.Call)
+						if !okc {
+							return false
+						}
+						bi, okb := call.Common().Value.(*ssa.Builtin)
+						if !okb || bi.Name() != "len" {
+							return false
+						}
+						// the measured value is what hexv encodes: same parameter origins
+						ao := Origins(call.Common().Args[0])
+						return len(ao) > 0 && allOrigins(ao, func(o Origin) bool { return o.Kind == "param" }) && hexv != nil &&
+							hasOrigin(Origins(hexv), func(o Origin) bool { return o.Kind == "param" && o.Val == ao[0].Val })
 					}
-					return (b.Op == token.EQL) == truth
-				})
+					if b, okb := cond.(*ssa.BinOp); okb && b.Op == token.EQL && truth {
+						if k, isK := constInt(b.Y); isK && k == 0 && isLenOfHash(b.X) {
+							return true
+						}
+						if k, isK := constInt(b.X); isK && k == 0 && isLenOfHash(b.Y) {
+							return true
+						}
+					}
+					if lo, hi, strict, isOrd := ordForm(cond, truth); isOrd && isLenOfHash(lo) {
+						if k, isK := constInt(hi); isK && ((!strict && k == 0) || (strict && k == 1)) {
+							return true
+						}
+					}
+					return false
+				}
+				entered := reachableAvoiding(s.fn, pred, est)
+				if entered {
+					// the edge into the join may itself be the establishing one
+					all, any := true, false
+					for si, sb := range pred.Succs {
+						if sb == ph.Block() {
+							any = true
+							if !est(edge{pred, si}) {
+								all = false
+							}
+						}
+					}
+					if any && all {
+						entered = false
+					}
+				}
 				if entered {
 					ok = false
 					detail = "default entry selectable for a non-empty chain hash"
